@@ -270,7 +270,16 @@ func (f *Frame) execInstr(ins ssa.Instruction, st *State, b *ssa.BasicBlock, idx
 		f.set(ins, Val{Tup: tup})
 		u.abstractf("%s: select statement treated as nondeterministic choice", u.name)
 	case *ssa.Send:
-		// no modelled effect
+		// no modelled effect on the channel; the send is a program point ("send#k [before]": $arg0 = channel, $arg1 = value)
+		if name, ok := f.callOrd[ins]; ok {
+			f.beforeArgs = map[string]TV{
+				"$arg0": {T: f.val(ins.Chan, st).T, Ty: ins.Chan.Type()},
+				"$arg1": {T: f.val(ins.X, st).T, Ty: ins.X.Type()},
+			}
+			f.atPoint(name+" before", st, b, idx)
+			f.beforeArgs = nil
+			f.atPoint(name, st, b, idx+1)
+		}
 	case *ssa.SliceToArrayPointer, *ssa.MultiConvert:
 		v := ins.(ssa.Value)
 		f.set(v, Val{T: u.freshOf(st, "conv", v.Type())})
